@@ -230,6 +230,8 @@ class PyNorm:
                     and elt.func.value.id == var and not elt.args):
                 kind = 'set' if isinstance(e, ast.SetComp) else 'list'
                 return ('map', kind, elt.func.attr.lower().replace('tolowercase', 'lower'), it)
+            if isinstance(elt, ast.Name) and elt.id == var:
+                return ('map', 'set' if isinstance(e, ast.SetComp) else 'list', 'id', it)
         raise AnalysisError(f'norm: unsupported comprehension {src(e)[:60]!r} in {self.fi.short}')
 
     def _global(self, name: str) -> Term:
